@@ -311,8 +311,10 @@ int create_directory(const char *dirname)
 	}
 
 	ret = mkdir(dirname, 0755);
-	if (ret < 0)
+	if (ret < 0) {
 		pr_warn("creating directory failed: %m\n");
+		goto out;
+	}
 
 	create_default_opts(dirname);
 
